@@ -66,6 +66,243 @@ type Term struct {
 	gen     int64 // solver generation in which this node was defined
 	id      int64
 	size    int32
+	sup     *Term // the single variable this term depends on (nil: none or several)
+	multi   bool  // depends on more than one variable
+	h       uint64
+	ub      uint64 // unsigned upper bound (valid if ubOK)
+	ubOK    bool
+}
+
+// ubOf returns an upper bound on the unsigned value of a bit-vector term.
+func ubOf(t *Term) uint64 {
+	if t.ubOK {
+		return t.ub
+	}
+	m := mask(t.w)
+	u := m
+	mulOv := func(a, b uint64) (uint64, bool) {
+		if a == 0 || b == 0 {
+			return 0, true
+		}
+		c := a * b
+		if c/b != a {
+			return 0, false
+		}
+		return c, true
+	}
+	switch t.op {
+	case opConst:
+		u = t.k
+	case opZext:
+		u = ubOf(t.a)
+	case opAdd:
+		a, b := ubOf(t.a), ubOf(t.b)
+		if c := a + b; c >= a && c <= m {
+			u = c
+		}
+	case opMul:
+		if c, ok := mulOv(ubOf(t.a), ubOf(t.b)); ok && c <= m {
+			u = c
+		}
+	case opAnd:
+		u = ubOf(t.a)
+		if b := ubOf(t.b); b < u {
+			u = b
+		}
+	case opOr, opXor:
+		a, b := ubOf(t.a), ubOf(t.b)
+		if b > a {
+			a = b
+		}
+		// next power of two minus one
+		for a&(a+1) != 0 {
+			a |= a >> 1
+		}
+		u = a
+	case opURem:
+		u = ubOf(t.a)
+		if t.b.isConst() && t.b.k > 0 && t.b.k-1 < u {
+			u = t.b.k - 1
+		}
+	case opUDiv:
+		u = ubOf(t.a)
+		if t.b.isConst() && t.b.k > 0 {
+			u = u / t.b.k
+		}
+	case opLShr:
+		u = ubOf(t.a)
+		if t.b.isConst() && t.b.k < 64 {
+			u >>= t.b.k
+		}
+	case opIte:
+		u = ubOf(t.b)
+		if c := ubOf(t.c); c > u {
+			u = c
+		}
+	case opExtract:
+		if uint8(t.k&0xff) == 0 {
+			if a := ubOf(t.a); a < u {
+				u = a
+			}
+		}
+	}
+	if u > m {
+		u = m
+	}
+	t.ub, t.ubOK = u, true
+	return u
+}
+
+// narrowWidth returns a smaller width sufficient for values <= ub (0: keep).
+func narrowWidth(w uint8, ub uint64) uint8 {
+	switch {
+	case w > 16 && ub < 1<<15:
+		return 16
+	case w > 32 && ub < 1<<31:
+		return 32
+	}
+	return 0
+}
+
+func mix(h, x uint64) uint64 {
+	h ^= x + 0x9e3779b97f4a7c15 + (h << 6) + (h >> 2)
+	return h * 0xff51afd7ed558ccd
+}
+
+func (t *Term) hash() uint64 {
+	if t.h != 0 {
+		return t.h
+	}
+	h := mix(uint64(t.op)+1, uint64(t.w))
+	h = mix(h, t.k)
+	for i := 0; i < len(t.name); i++ {
+		h = mix(h, uint64(t.name[i]))
+	}
+	for _, ch := range [3]*Term{t.a, t.b, t.c} {
+		if ch != nil {
+			h = mix(h, ch.hash())
+		} else {
+			h = mix(h, 7)
+		}
+	}
+	if h == 0 {
+		h = 1
+	}
+	t.h = h
+	return h
+}
+
+// sameTerm is structural equality.
+func sameTerm(x, y *Term) bool {
+	if x == y {
+		return true
+	}
+	if x == nil || y == nil {
+		return false
+	}
+	if x.op != y.op || x.w != y.w || x.k != y.k || x.name != y.name || x.hash() != y.hash() {
+		return false
+	}
+	return sameTerm(x.a, y.a) && sameTerm(x.b, y.b) && sameTerm(x.c, y.c)
+}
+
+// rebuild constructs op(a,b,c) through the simplifying constructors.
+func rebuild(t *Term, a, b, c *Term) *Term {
+	switch t.op {
+	case opAdd, opSub, opMul, opUDiv, opSDiv, opURem, opSRem, opAnd, opOr, opXor, opShl, opLShr, opAShr:
+		return mkBin(t.op, a, b)
+	case opEq, opUlt, opUle, opSlt, opSle:
+		return mkCmp(t.op, a, b)
+	case opNot:
+		return mkBvNot(a)
+	case opNeg:
+		return mkNeg(a)
+	case opBNot:
+		return mkNot(a)
+	case opBAnd:
+		return mkAnd(a, b)
+	case opBOr:
+		return mkOr(a, b)
+	case opIte:
+		return mkIte(a, b, c)
+	case opExtract:
+		return mkExtract(a, uint8(t.k>>8), uint8(t.k&0xff))
+	case opZext:
+		return mkZext(a, t.w)
+	case opSext:
+		return mkSext(a, t.w)
+	case opConcat:
+		return mkConcat(a, b)
+	}
+	panic("rebuild: bad op")
+}
+
+// supp computes the support summary of a freshly built term from its children.
+func (t *Term) supp() *Term {
+	for _, ch := range [3]*Term{t.a, t.b, t.c} {
+		if ch == nil {
+			continue
+		}
+		if ch.multi {
+			t.multi = true
+			t.sup = nil
+			return t
+		}
+		if ch.sup != nil {
+			if t.sup == nil {
+				t.sup = ch.sup
+			} else if t.sup != ch.sup {
+				t.multi = true
+				t.sup = nil
+				return t
+			}
+		}
+	}
+	return t
+}
+
+// evalSingle evaluates t with its single support variable set to val.
+func evalSingle(t *Term, val uint64) uint64 {
+	switch t.op {
+	case opConst:
+		return t.k
+	case opVar:
+		return val & maskOrBool(t.w)
+	case opAdd, opSub, opMul, opUDiv, opSDiv, opURem, opSRem, opAnd, opOr, opXor, opShl, opLShr, opAShr:
+		return evalBin(t.op, t.w, evalSingle(t.a, val), evalSingle(t.b, val))
+	case opEq, opUlt, opUle, opSlt, opSle:
+		return b2u(evalCmp(t.op, t.a.w, evalSingle(t.a, val), evalSingle(t.b, val)))
+	case opNot:
+		return ^evalSingle(t.a, val) & mask(t.w)
+	case opNeg:
+		return -evalSingle(t.a, val) & mask(t.w)
+	case opBNot:
+		return 1 - evalSingle(t.a, val)
+	case opBAnd:
+		if evalSingle(t.a, val) == 0 {
+			return 0
+		}
+		return evalSingle(t.b, val)
+	case opBOr:
+		if evalSingle(t.a, val) == 1 {
+			return 1
+		}
+		return evalSingle(t.b, val)
+	case opIte:
+		if evalSingle(t.a, val) == 1 {
+			return evalSingle(t.b, val)
+		}
+		return evalSingle(t.c, val)
+	case opExtract:
+		return (evalSingle(t.a, val) >> uint8(t.k&0xff)) & mask(t.w)
+	case opZext:
+		return evalSingle(t.a, val)
+	case opSext:
+		return uint64(signExt(evalSingle(t.a, val), t.a.w)) & mask(t.w)
+	case opConcat:
+		return evalSingle(t.a, val)<<t.b.w | evalSingle(t.b, val)
+	}
+	panic("evalSingle: bad op")
 }
 
 func mask(w uint8) uint64 {
@@ -87,7 +324,11 @@ func mkBool(b bool) *Term {
 	return termFalse
 }
 
-func mkVar(w uint8, name string) *Term { return &Term{op: opVar, w: w, name: name, size: 1} }
+func mkVar(w uint8, name string) *Term {
+	t := &Term{op: opVar, w: w, name: name, size: 1}
+	t.sup = t
+	return t
+}
 
 func (t *Term) isConst() bool { return t.op == opConst }
 func (t *Term) isTrue() bool  { return t.op == opConst && t.w == 0 && t.k == 1 }
@@ -247,7 +488,19 @@ func mkBin(op opcode, x, y *Term) *Term {
 			return mkConst(x.w, 0)
 		}
 	}
-	return &Term{op: op, w: x.w, a: x, b: y, size: sz(x, y)}
+	r := (&Term{op: op, w: x.w, a: x, b: y, size: sz(x, y)}).supp()
+	switch op {
+	case opAdd, opMul, opUDiv, opURem:
+		// if the exact (non-wrapping) result is small, compute at a narrower width
+		ux, uy := ubOf(x), ubOf(y)
+		if nw := narrowWidth(x.w, ubOf(r)); nw != 0 && ux <= mask(nw) && uy <= mask(nw) && ubOf(r) < mask(x.w) {
+			nx, ny := mkExtract(x, nw-1, 0), mkExtract(y, nw-1, 0)
+			if nx.size <= x.size && ny.size <= y.size {
+				return mkZext(mkBin(op, nx, ny), x.w)
+			}
+		}
+	}
+	return r
 }
 
 func mkCmp(op opcode, x, y *Term) *Term {
@@ -263,6 +516,26 @@ func mkCmp(op opcode, x, y *Term) *Term {
 			return termTrue
 		default:
 			return termFalse
+		}
+	}
+	if x.w > 16 {
+		// both sides small and non-negative: compare at a narrower width
+		ux, uy := ubOf(x), ubOf(y)
+		u := ux
+		if uy > u {
+			u = uy
+		}
+		if nw := narrowWidth(x.w, u); nw != 0 {
+			nx, ny := mkExtract(x, nw-1, 0), mkExtract(y, nw-1, 0)
+			if nx.size <= x.size && ny.size <= y.size {
+				nop := op
+				if op == opSlt {
+					nop = opUlt
+				} else if op == opSle {
+					nop = opUle
+				}
+				return mkCmp(nop, nx, ny)
+			}
 		}
 	}
 	if op == opEq && x.w == 0 {
@@ -292,7 +565,7 @@ func mkCmp(op opcode, x, y *Term) *Term {
 			return termFalse
 		}
 	}
-	return &Term{op: op, w: 0, a: x, b: y, size: sz(x, y)}
+	return (&Term{op: op, w: 0, a: x, b: y, size: sz(x, y)}).supp()
 }
 
 func mkNot(x *Term) *Term {
@@ -302,7 +575,7 @@ func mkNot(x *Term) *Term {
 	if x.op == opBNot {
 		return x.a
 	}
-	return &Term{op: opBNot, w: 0, a: x, size: sz(x)}
+	return (&Term{op: opBNot, w: 0, a: x, size: sz(x)}).supp()
 }
 
 func mkAnd(x, y *Term) *Term {
@@ -315,7 +588,7 @@ func mkAnd(x, y *Term) *Term {
 	if y.isTrue() {
 		return x
 	}
-	return &Term{op: opBAnd, w: 0, a: x, b: y, size: sz(x, y)}
+	return (&Term{op: opBAnd, w: 0, a: x, b: y, size: sz(x, y)}).supp()
 }
 
 func mkOr(x, y *Term) *Term {
@@ -328,7 +601,7 @@ func mkOr(x, y *Term) *Term {
 	if y.isFalse() {
 		return x
 	}
-	return &Term{op: opBOr, w: 0, a: x, b: y, size: sz(x, y)}
+	return (&Term{op: opBOr, w: 0, a: x, b: y, size: sz(x, y)}).supp()
 }
 
 func mkIte(c, x, y *Term) *Term {
@@ -348,21 +621,21 @@ func mkIte(c, x, y *Term) *Term {
 		// boolean ite
 		return mkOr(mkAnd(c, x), mkAnd(mkNot(c), y))
 	}
-	return &Term{op: opIte, w: x.w, a: c, b: x, c: y, size: sz(c, x, y)}
+	return (&Term{op: opIte, w: x.w, a: c, b: x, c: y, size: sz(c, x, y)}).supp()
 }
 
 func mkBvNot(x *Term) *Term {
 	if x.isConst() {
 		return mkConst(x.w, ^x.k)
 	}
-	return &Term{op: opNot, w: x.w, a: x, size: sz(x)}
+	return (&Term{op: opNot, w: x.w, a: x, size: sz(x)}).supp()
 }
 
 func mkNeg(x *Term) *Term {
 	if x.isConst() {
 		return mkConst(x.w, -x.k)
 	}
-	return &Term{op: opNeg, w: x.w, a: x, size: sz(x)}
+	return (&Term{op: opNeg, w: x.w, a: x, size: sz(x)}).supp()
 }
 
 func mkExtract(x *Term, hi, lo uint8) *Term {
@@ -376,7 +649,10 @@ func mkExtract(x *Term, hi, lo uint8) *Term {
 	if (x.op == opZext || x.op == opSext) && lo == 0 && w <= x.a.w {
 		return mkExtract(x.a, hi, 0)
 	}
-	return &Term{op: opExtract, w: w, a: x, k: uint64(hi)<<8 | uint64(lo), size: sz(x)}
+	if x.op == opZext && lo == 0 && w > x.a.w {
+		return mkZext(x.a, w)
+	}
+	return (&Term{op: opExtract, w: w, a: x, k: uint64(hi)<<8 | uint64(lo), size: sz(x)}).supp()
 }
 
 func mkZext(x *Term, w uint8) *Term {
@@ -389,7 +665,7 @@ func mkZext(x *Term, w uint8) *Term {
 	if x.isConst() {
 		return mkConst(w, x.k)
 	}
-	return &Term{op: opZext, w: w, a: x, size: sz(x)}
+	return (&Term{op: opZext, w: w, a: x, size: sz(x)}).supp()
 }
 
 func mkSext(x *Term, w uint8) *Term {
@@ -402,14 +678,14 @@ func mkSext(x *Term, w uint8) *Term {
 	if x.isConst() {
 		return mkConst(w, uint64(signExt(x.k, x.w)))
 	}
-	return &Term{op: opSext, w: w, a: x, size: sz(x)}
+	return (&Term{op: opSext, w: w, a: x, size: sz(x)}).supp()
 }
 
 func mkConcat(hi, lo *Term) *Term {
 	if hi.isConst() && lo.isConst() {
 		return mkConst(hi.w+lo.w, hi.k<<lo.w|lo.k)
 	}
-	return &Term{op: opConcat, w: hi.w + lo.w, a: hi, b: lo, size: sz(hi, lo)}
+	return (&Term{op: opConcat, w: hi.w + lo.w, a: hi, b: lo, size: sz(hi, lo)}).supp()
 }
 
 // ---------------------------------------------------------------------------
@@ -704,15 +980,26 @@ func (s *Solver) readResult() SatResult {
 func (s *Solver) Check(extra *Term, vars []*Term, wantModel bool) (SatResult, Model) {
 	start := time.Now()
 	defer func() { s.SolveTime += time.Since(start) }()
+	if qlog != nil {
+		defer func() {
+			if extra == nil {
+				qlog(termTrue, 0, time.Since(start))
+			} else {
+				qlog(extra, 0, time.Since(start))
+			}
+		}()
+	}
 	s.Queries++
 	if extra != nil {
 		r := s.ref(extra)
+		s.nextID++
+		q := "q" + strconv.FormatInt(s.nextID, 10)
+		s.buf.WriteString("(define-fun " + q + " () Bool " + r + ")\n")
 		s.flushDefs()
-		// definitions emitted before the inner push stay valid for the path
-		s.send("(push 1)\n(assert " + r + ")\n(check-sat)\n")
+		s.send("(check-sat-assuming (" + q + "))\n")
 	} else {
 		s.flushDefs()
-		s.send("(push 1)\n(check-sat)\n")
+		s.send("(check-sat)\n")
 	}
 	res := s.readResult()
 	var m Model
@@ -730,7 +1017,6 @@ func (s *Solver) Check(extra *Term, vars []*Term, wantModel bool) (SatResult, Mo
 	default:
 		s.Unknown++
 	}
-	s.send("(pop 1)\n")
 	return res, m
 }
 
